@@ -21,8 +21,6 @@ KEY_FEATURES = ('explicit-over-nonstring-primitive', 'multibyte-text', 'optional
                 'explicit-over-choice', 'explicit-over-any', 'real-base10', 'indefinite', 'chunked')
 
 CHUNKS = [0, 1, 2, 3, 7, 1000]
-EMULATE = {'stray-eoo', 'real-nr3-nodot', 'emptyable-optional'}
-HARMLESS = {'real-nr3-nodot'}
 
 
 def plan(tier, seed):
@@ -52,36 +50,11 @@ def check_case(res, T, v, modes, bt=None):
         nontrivial = U.base_of(T)[0] not in U.SIMPLE or T[0] == 'tag' or chunk
         res.case(U.case_hash(T, bt.cv, defMode, chunk), nontrivial)
         res.see('mode:def=%s,chunk=%s' % (defMode, chunk if chunk in CHUNKS else 'rnd'))
-        try:
-            e = ber_encoder.encode(bt.obj, defMode=defMode, maxChunkSize=chunk)
-        except Exception as ex:
-            c = H.classify_exception(ex)
-            res.witness('encode-raised:%s' % (c if not isinstance(c, tuple) else 'leak:' + c[1]), feats, case, ex)
+        out = C.encode_monitored(res, 'ber', ber_encoder.encode, bt.obj, dict(defMode=defMode, maxChunkSize=chunk),
+                                 T, v, 'BER', defMode, chunk, feats, case)
+        if out is None:
             continue
-        if not isinstance(e, bytes):
-            res.witness('encode-returned-non-bytes', feats, case, type(e))
-            continue
-        data = e
-        want, used = R.like_pyasn1_used(T, v, 'BER', defMode, chunk, EMULATE)
-        used = used - HARMLESS
-        if used:
-            # zone of pinned encoder findings: require the exact emulated bytes, then exercise the
-            # decoder on the same sender's choices without the findings' deviations (DESIGN 2.7)
-            for u in used:
-                feats.add('emu:' + u)
-                res.see('in-zone:' + u)
-            if e != want:
-                res.witness('in-zone-output-differs-from-emulation', feats - set('emu:' + u for u in used),
-                            case, 'got %s want %s' % (e.hex()[:600], want.hex()[:600]))
-                continue
-            for u in used:
-                res.witness('encoder:' + u, feats, case, e.hex()[:600])
-            data = R.like_pyasn1(T, v, 'BER', defMode, chunk, HARMLESS)
-        else:
-            res.see('clean')
-            if e != want:
-                res.see('emulation-mismatch-out-of-zone')
-                res.see_in('emulation-mismatch-samples', repr(case)[:300] if len(repr(case)) < 300 else '')
+        e, data, used = out
         if C.check_roundtrip(res, 'ber', ber_decoder.decode, data, bt, case, feats):
             res.see('roundtrip-ok')
     if len(res.samples) < 4:
